@@ -31,6 +31,7 @@ class C06(AttBase):
 
     def configurations(self, ctx):
         cfgs = [c for c in VC.POOL if ctx.thorough or c["name"] in self.quick_pool]
+        cfgs.append(VC.by_name("fixed_handles"))   # handle gaps: accesses under a handle no attribute has
         if ctx.thorough:
             cfgs += [VC.by_name(n) for n in ("values", "handlers", "mtu24", "mtu65", "mtu300", "basic3")]
         return cfgs + VC.random_configs(self.component, ctx.rng, self.thorough_random if ctx.thorough else self.quick_random)
@@ -45,6 +46,8 @@ class C06(AttBase):
                 cases.append(self.case("bounds", cfg, ops))
             for ops in VC.gen_k1(rng, vi):
                 cases.append(self.case("noread", cfg, ops))
+            for ops in VC.gen_gap_handles(rng, vi):
+                cases.append(self.case("gaps", cfg, ops))
             for k in range(per):
                 cases.append(self.case("hist", cfg, VC.gen_value_history(rng, vi, rng.choice([10, 25, 40]), sec_rate=0.04)))
             if ctx.thorough:
